@@ -16,7 +16,7 @@ import torch.nn as nn
 import torch.nn.functional as F
 
 import inferno
-from inferno.neural import LinearDense, LinearDirect, LinearLateral, Conv2D, DeltaCurrent, DeltaPlusCurrent
+from inferno.neural import LinearDense, LinearDirect, LinearLateral, Conv2D, DeltaCurrent, DeltaPlusCurrent, SingleExponentialCurrent
 
 from mc.common import Tally, Guard
 from mc.explore import explore
@@ -30,7 +30,82 @@ DT = 1.0
 def syn(kind):
     if kind == "delta":
         return DeltaCurrent.partialconstructor(spike_charge=DT)  # current == spike
+    if kind == "exp":
+        return SingleExponentialCurrent.partialconstructor(spike_charge=2.0, time_constant=2.0)
     return DeltaPlusCurrent.partialconstructor(spike_charge=DT)
+
+
+def stateful_shard(kind, tier):
+    """The map is applied to the *synapse's current*, whatever the synapse: the connection's synapse is run next to a standalone
+    synapse of the same class on the same inputs, for every boolean input history of length T and for graded float inputs
+    (a non-zero value is a spike); at every step out == map(standalone.current) and connection.syncurrent == standalone.current,
+    so a connection that scribbles on its synapse's state, or a synapse whose returned value differs from its current, shows."""
+    tally = Tally()
+    T = 3 if tier == "quick" else 4
+    I = 2
+    for skind in ("delta", "deltaplus", "exp"):
+        for bias in (False, True):
+            for graded in (False, True):
+                for hist in itertools.product(list(itertools.product((0, 1), repeat=I)), repeat=T):
+                    cfg = {"conn": kind, "synapse": skind, "bias": bias, "graded_float_input": graded, "history": [list(h) for h in hist]}
+                    tally.add("evaluations")
+                    try:
+                        if kind == "dense":
+                            W = int_weights(3, I)
+                            c = LinearDense((I,), (3,), DT, synapse=syn(skind), bias=bias, batch_size=1, weight_init=lambda w, W=W: W.clone(),
+                                            bias_init=lambda b: int_weights(b.numel(), off=100))
+                        elif kind == "direct":
+                            W = int_weights(I)
+                            c = LinearDirect((I,), DT, synapse=syn(skind), bias=bias, batch_size=1, weight_init=lambda w, W=W: W.clone(),
+                                             bias_init=lambda b: int_weights(b.numel(), off=100))
+                        elif kind == "lateral":
+                            W = int_weights(I, I)
+                            c = LinearLateral((I,), DT, synapse=syn(skind), bias=bias, batch_size=1, weight_init=lambda w, W=W: W.clone(),
+                                              bias_init=lambda b: int_weights(b.numel(), off=100))
+                        else:
+                            W = torch.tensor([[[[1.0, 3.0]]]])
+                            c = Conv2D(1, I, 1, 1, DT, (1, 2), synapse=syn(skind), bias=bias, batch_size=1, weight_init=lambda w, W=W: W.clone(),
+                                       bias_init=lambda b: int_weights(b.numel(), off=100))
+                        inshape = (1, 1, I) if kind == "conv" else (I,)
+                        ref = syn(skind)(inshape, DT, 0.0, 1)
+                    except Exception as ex:
+                        tally.violation(f"exception:construct:{kind}:{type(ex).__name__}", cfg, repr(ex))
+                        break
+                    Wm = c.weight.detach().to(torch.float64)
+                    O = Wm.shape[0] if kind != "conv" else 1
+                    bvec = (int_weights(O, off=100) if bias else torch.zeros(O)).to(torch.float64)
+                    for t, bits in enumerate(hist):
+                        x = torch.tensor([list(bits)], dtype=torch.float32) * 2.5 if graded else torch.tensor([list(bits)], dtype=torch.bool)
+                        x = x.reshape(1, *inshape)
+                        args = (x,) if skind != "deltaplus" else (x, torch.full((1, *inshape), 0.25 * (t + 1)))
+                        try:
+                            out = c(*[a.clone() for a in args]).to(torch.float64).reshape(-1)
+                            ref(*[a.clone() for a in args])
+                            cur = ref.current.to(torch.float64).reshape(-1)
+                            own = c.syncurrent.to(torch.float64).reshape(-1)
+                        except Exception as ex:
+                            tally.violation(f"exception:stateful:{kind}:{skind}:{type(ex).__name__}", {**cfg, "step": t}, repr(ex))
+                            break
+                        if kind == "dense":
+                            exp = Wm @ cur + bvec
+                        elif kind == "direct":
+                            exp = Wm * cur + bvec
+                        elif kind == "lateral":
+                            exp = (Wm * (1 - torch.eye(I, dtype=torch.float64))) @ cur + bvec
+                        else:
+                            exp = (Wm.reshape(-1) * cur).sum().reshape(1) + bvec
+                        if own.shape != cur.shape or not torch.allclose(own, cur, rtol=1e-6, atol=1e-6):
+                            tally.violation(f"syncurrent-differs:{kind}:{skind}", {**cfg, "step": t}, f"step {t}: connection.syncurrent {own.tolist()} but a standalone "
+                                            f"{skind} synapse on the same inputs holds {cur.tolist()}", cur.tolist(), own.tolist())
+                            break
+                        if out.shape != exp.shape or not torch.allclose(out, exp, rtol=1e-6, atol=1e-6):
+                            tally.violation(f"stateful-map:{kind}:{skind}{':graded' if graded else ''}", {**cfg, "step": t}, f"step {t}: output {out.tolist()} but the "
+                                            f"documented map of the synapse's current {cur.tolist()} gives {exp.tolist()}", exp.tolist(), out.tolist())
+                            break
+                    if any(any(b) for b in hist):
+                        tally.mark("nontrivial", ("stateful", kind, skind, bias, graded, hist))
+    tally.sample({"part": "stateful synapses / graded inputs", "conn": kind, "T": T})
+    return tally
 
 
 def prod(shape):
@@ -377,6 +452,7 @@ def lateral_shard(n, ctor_init, depth):
 def run(rep):
     quick = rep.tier == "quick"
     jobs = [(linear_shard, (k, rep.tier)) for k in ("dense", "direct", "lateral")]
+    jobs += [(stateful_shard, (k, rep.tier)) for k in ("dense", "direct", "lateral", "conv")]
     sizes = (3, 4) if quick else (1, 2, 3, 4, 5)
     for H in sizes:
         for Wd in sizes:
